@@ -1012,3 +1012,157 @@ func ruleArrayNonNil(c *Ctx, rule string) {
 		c.Und(rule, "decodeState methods returning an Array", "-", "none found: anchor lost")
 	}
 }
+
+// ---- C06/throw-reentry (also C16, C02) ------------------------------------------------------------------------
+// The unwinding routine VM.throw is not re-entered from the functions it calls:
+// it moves frameIndex, the current frame, the instruction slice and ip in
+// separate steps, and a nested throw started between those steps (from the
+// handler-dispatch function, for a handler that is already consumed) walks the
+// frames with a half-switched VM: wrong trace, a corrupted ip ("unknown opcode",
+// index out of range in the dispatch loop) or a lost error.
+func ruleThrowReentry(c *Ctx, rule string) {
+	l := c.L
+	throw := l.Method(modPath, "VM", "throw")
+	if !c.Anchor(rule, "VM.throw", throw != nil) {
+		return
+	}
+	// static reach from throw's callees back to throw
+	var path []string
+	seen := map[*ssa.Function]bool{}
+	var reach func(f *ssa.Function, d int) bool
+	reach = func(f *ssa.Function, d int) bool {
+		if seen[f] || d > 8 || len(f.Blocks) == 0 {
+			return false
+		}
+		seen[f] = true
+		found := false
+		eachInstr(f, func(ins ssa.Instruction) {
+			if found {
+				return
+			}
+			ci, ok := ins.(ssa.CallInstruction)
+			if !ok {
+				return
+			}
+			g := ci.Common().StaticCallee()
+			if g == nil || funcPkgPath(g) != modPath {
+				return
+			}
+			if g == throw {
+				path = append(path, fnName(f)+" at "+l.Pos(ins.Pos()))
+				found = true
+				return
+			}
+			if reach(g, d+1) {
+				path = append(path, fnName(f))
+				found = true
+			}
+		})
+		return found
+	}
+	re := false
+	var at ssa.Instruction
+	eachInstr(throw, func(ins ssa.Instruction) {
+		if re {
+			return
+		}
+		ci, ok := ins.(ssa.CallInstruction)
+		if !ok {
+			return
+		}
+		g := ci.Common().StaticCallee()
+		if g == nil || funcPkgPath(g) != modPath {
+			return
+		}
+		if g == throw || reach(g, 0) {
+			re, at = true, ins
+		}
+	})
+	pos := l.Pos(throw.Pos())
+	if at != nil {
+		pos = l.Pos(at.Pos())
+	}
+	c.Check(rule, "VM.throw | not re-entered from its callees", pos, !re, "no callee of throw reaches throw",
+		"throw can be re-entered through "+strings.Join(path, " <- ")+": a nested unwinding runs while frameIndex, the current frame and ip are only partly switched (a caller frame whose try/catch has already completed, then a failing callee: corrupted trace, 'unknown opcode', index out of range in the dispatch loop)")
+}
+
+// ---- C10/compile-rollback (also C05) ------------------------------------------------------------------------------
+// In Eval.Run, the compile call updates the session's module store in place
+// while the constants come back by value and are stored only on success.  On
+// every path from the compile call to a return either the constants are stored
+// (success) or the module store is rolled back (a call of one of its methods
+// that writes it): otherwise a fragment that fails to compile after an import
+// leaves a module registered whose constant does not exist, and the next
+// fragment that imports it makes Compile panic (index out of range).
+func ruleCompileRollback(c *Ctx, rule string, run *ssa.Function, compileCall ssa.Instruction) {
+	l := c.L
+	_, fStoreMap := l.structField(modPath, "moduleStore", "store")
+	_, fCount := l.structField(modPath, "moduleStore", "count")
+	if !c.Anchor(rule, "moduleStore.store / count", fStoreMap >= 0 && fCount >= 0) {
+		return
+	}
+	writesStore := func(f *ssa.Function) bool {
+		r := f.Signature.Recv()
+		if r == nil || !isNamed(r.Type(), modPath, "moduleStore") {
+			return false
+		}
+		w := false
+		eachInstr(f, func(ins ssa.Instruction) {
+			switch x := ins.(type) {
+			case *ssa.Store:
+				if _, ok := isFieldAddrOf(x.Addr, modPath, "moduleStore", fCount); ok {
+					w = true
+				}
+				if _, ok := isFieldAddrOf(x.Addr, modPath, "moduleStore", fStoreMap); ok {
+					w = true
+				}
+			case *ssa.MapUpdate:
+				w = true
+			case *ssa.Call:
+				if bi, ok := x.Call.Value.(*ssa.Builtin); ok && bi.Name() == "delete" {
+					w = true
+				}
+			}
+		})
+		return w
+	}
+	via := func(ins ssa.Instruction) bool {
+		if storesStructField(l, modPath, "CompilerOptions", "Constants")(ins) {
+			return true
+		}
+		if cl, ok := ins.(*ssa.Call); ok {
+			if f := cl.Call.StaticCallee(); f != nil && writesStore(f) {
+				return true
+			}
+		}
+		return false
+	}
+	bad, ok := mustPassBefore(compileCall, via, isReturn)
+	pos := l.Pos(compileCall.Pos())
+	if bad != nil {
+		pos = l.Pos(bad.Pos())
+	}
+	c.Check(rule, "Eval.Run | module store consistent with the constants after the compile call", pos, ok, "every path stores the constants or rolls the module store back",
+		"a path from the compile call to a return (the compile-error path) neither stores the new constants nor rolls back the module store: a module registered by the failed fragment refers to a constant that does not exist, and the next fragment importing it makes Compile panic")
+}
+
+// ruleCompileRollbackAuto locates Eval.Run and its compile call itself (used by C05).
+func ruleCompileRollbackAuto(c *Ctx, rule string) {
+	l := c.L
+	run := l.Method(modPath, "Eval", "Run")
+	if !c.Anchor(rule, "Eval.Run", run != nil) {
+		return
+	}
+	var compileCall ssa.Instruction
+	eachInstr(run, func(ins ssa.Instruction) {
+		if ci, ok := ins.(ssa.CallInstruction); ok {
+			if f := ci.Common().StaticCallee(); f != nil && f.Name() == "compileScript" {
+				compileCall = ins
+			}
+		}
+	})
+	if !c.Anchor(rule, "the compile call inside Eval.Run", compileCall != nil) {
+		return
+	}
+	ruleCompileRollback(c, rule, run, compileCall)
+}
